@@ -66,6 +66,12 @@ var Features = []string{
 	"sparse-ids",     // relationship ids of the main part are sparse / not of the form rIdN
 	"tbl-nogrid",     // a table without w:tblGrid
 	"sectpr-in-para", // the section properties live in the last paragraph's w:pPr, no body-level w:sectPr
+	"empty-part",     // a zero-length part (word/embeddings/oleObject1.bin) with a relationship and a Default content type
+	"big-part",       // a 200 KiB incompressible binary part (word/attachedData.bin)
+	"zip-stored",     // every ZIP entry is stored, not deflated
+	"glossary",       // word/glossary/document.xml with its own relationships and styles part
+	"comments",       // word/comments.xml + comment range and reference around a run
+	"media-override", // body picture whose content type is given by an Override, not by a Default extension
 }
 
 // Conflict reports whether two features cannot be combined.
@@ -280,6 +286,45 @@ func Compose(feats []string) []byte {
 		}
 		body += `<w:tbl><w:tblPr><w:tblW w:w="0" w:type="auto"/></w:tblPr><w:tr>` + cell("[c11]") + cell("[c12]") + `</w:tr><w:tr>` + cell("[c21]") + cell("[c22]") + `</w:tr></w:tbl>`
 		body += `<w:p>` + run("[after-table]") + `</w:p>`
+	}
+	if has["empty-part"] {
+		p.Defaults["bin"] = "application/vnd.openxmlformats-officedocument.oleObject"
+		p.Add("word/embeddings/oleObject1.bin", []byte{})
+		docRel(NsR+"/oleObject", "embeddings/oleObject1.bin", false)
+	}
+	if has["big-part"] {
+		p.Defaults["bin"] = "application/vnd.openxmlformats-officedocument.oleObject"
+		blob := make([]byte, 200<<10)
+		x := uint32(2463534242)
+		for i := range blob {
+			x ^= x << 13
+			x ^= x >> 17
+			x ^= x << 5
+			blob[i] = byte(x >> 11)
+		}
+		p.Add("word/attachedData.bin", blob)
+		docRel(NsR+"/oleObject", "attachedData.bin", false)
+	}
+	if has["zip-stored"] {
+		p.Stored = true
+	}
+	if has["glossary"] {
+		addPart("word/glossary/document.xml", []byte(xmlDecl+`<w:glossaryDocument xmlns:w="`+NsW+`"><w:docParts><w:docPart><w:docPartPr><w:name w:val="Block1"/></w:docPartPr><w:docPartBody><w:p><w:r><w:t>[glossary-text]</w:t></w:r></w:p></w:docPartBody></w:docPart></w:docParts></w:glossaryDocument>`), "application/vnd.openxmlformats-officedocument.wordprocessingml.document.glossary+xml")
+		addPart("word/glossary/styles.xml", StylesXML(), CtStyles)
+		p.OtherRels["word/glossary/_rels/document.xml.rels"] = []Rel{{ID: "rId1", Type: RtStyles, Target: "styles.xml"}}
+		docRel(NsR+"/glossaryDocument", "glossary/document.xml", false)
+	}
+	if has["comments"] {
+		addPart("word/comments.xml", []byte(xmlDecl+`<w:comments xmlns:w="`+NsW+`"><w:comment w:id="0" w:author="A" w:date="2020-01-01T00:00:00Z" w:initials="A"><w:p><w:r><w:t>[comment-text]</w:t></w:r></w:p></w:comment></w:comments>`), "application/vnd.openxmlformats-officedocument.wordprocessingml.comments+xml")
+		docRel(NsR+"/comments", "comments.xml", false)
+		body += `<w:p>` + run("[cm-before]") + `<w:commentRangeStart w:id="0"/>` + run("[cm-text]") + `<w:commentRangeEnd w:id="0"/><w:r><w:commentReference w:id="0"/></w:r>` + run("[cm-after]") + `</w:p>`
+	}
+	if has["media-override"] {
+		p.Add("word/media/image3.png", SmallPNG(3, 2, 55))
+		p.Overrides["/word/media/image3.png"] = "image/png"
+		id := docRel(RtImage, "media/image3.png", false)
+		docPr++
+		body += DrawingPara(id, docPr, 9525*3, 9525*2)
 	}
 	sect := `<w:sectPr>` + sectRefs + `<w:pgSz w:w="11906" w:h="16838"/><w:pgMar w:top="1440" w:right="1800" w:bottom="1440" w:left="1800" w:header="851" w:footer="992" w:gutter="0"/>` + titlePg + `</w:sectPr>`
 	if has["sectpr-in-para"] {
